@@ -447,7 +447,13 @@ def run(ctx):
                               config=config)
                 elif rec[0] == 'validate_header':
                     gate_seen = True
-            ck.require(gate_seen, 'read_header_from_file success path without validate_header (see C02-a)')
+            if not gate_seen:
+                # a success exit that never reaches the comparison: the header opens whatever its bytes are
+                ck.ob('C06-c', 'R2.gate', fn.name, 'validate_header', False,
+                      'a success exit of read_header_from_file does not pass through validate_header: the header is '
+                      'accepted on this path without its checksum having been compared', fn.file,
+                      trace[-1][2] if trace else fn.line, config=config)
+                continue
             ok, msg, rendered = tile(ext, window, total)
             ck.ob('C06-a', 'R4.tiling', fn.name, 'reader-extents', ok,
                   ('reader hashes %s: %s' % ('; '.join(rendered), msg)) if ok else msg, fn.file,
